@@ -350,7 +350,8 @@ pub fn u16_list(r: &mut Rng, max: usize) -> Vec<u16> {
 /// what a real TLS 1.3 stack sends: legacy version 0303, null compression, TLS 1.3 suites, and a
 /// well-formed extension list with supported_versions / key_share (conjunctions of meaningful values)
 pub fn tls13_exts_server(r: &mut Rng) -> Vec<u8> {
-    let v = *r.pick(&[0x0304u16, 0x0304, 0x7f1c, 0x7f17, 0x7f16, 0x7f12, 0x0303]);
+    // TLS 1.3 and its drafts, DTLS 1.3 / 1.2, and one non-1.3 value
+    let v = *r.pick(&[0x0304u16, 0x0304, 0x7f1c, 0x7f17, 0x7f16, 0x7f12, 0x0303, 0xfefc, 0xfefc, 0xfefd]);
     let mut l = vec![AExt::SupportedVersionsServer(v)];
     if r.chance(2, 3) {
         let kl = if r.bool() { 2 } else { 36 };
@@ -478,6 +479,36 @@ pub fn hs_variant(r: &mut Rng, sz: Sz, variant: usize) -> AHs {
         },
         _ => AHs::KeyUpdate(r.u8b()),
     }
+}
+/// A handshake message cut INSIDE its body with the u24 length rewritten to the cut size (self-consistent
+/// framing, structurally incomplete body): hello messages and the list-bearing messages, cut at a position
+/// where no valid encoding ends. Returns (message bytes, variant name, cut position).
+pub fn consistent_cut(r: &mut Rng) -> Option<(Vec<u8>, &'static str, usize)> {
+    let k = *r.pick(&[1usize, 1, 1, 2, 2, 6, 7, 14, 15, 16]);
+    let m = hs_variant(r, TINY, k);
+    let body = m.body_bytes();
+    if body.is_empty() {
+        return None;
+    }
+    // where the MANDATORY part of the body ends (an extension block is optional: a cut inside it is lenient
+    // territory and not used here); every cut before that point removes (part of) a mandatory field
+    let mandatory_end = match &m {
+        AHs::ClientHello(c) => 2 + 32 + 1 + c.sid.len() + 2 + 2 * c.ciphers.len() + 1 + c.comp.len(),
+        AHs::ServerHello(h) => 2 + 32 + 1 + h.sid.len() + 2 + 1,
+        AHs::HelloRetryRequest { .. } => 4,
+        _ => body.len(),
+    };
+    if mandatory_end == 0 {
+        return None;
+    }
+    let cut = match r.below(4) {
+        0 => mandatory_end - 1,
+        1 => mandatory_end.saturating_sub(2),
+        _ => r.usize(0, mandatory_end - 1),
+    };
+    let mut v = vec![m.type_code(), (cut >> 16) as u8, (cut >> 8) as u8, cut as u8];
+    v.extend_from_slice(&body[..cut]);
+    Some((v, m.variant_name(), cut))
 }
 pub fn hs(r: &mut Rng, sz: Sz) -> AHs {
     let v = r.below(HS_VARIANTS as u64) as usize;
